@@ -12,9 +12,19 @@ package base
 //@   props C09 C11 C15
 //@   recovers
 //@   nopanic
+//@   ghost ncall int = 0
+//@   ghost CV rv = RV_zero()
+//@   ghost CE error = nil
+//@   ghost CB bool = false
 //@   oncall (*RuleContent).Execute
-//@     assert [C15] freshlocals: fresh(arg1) && emptymap(arg1)
+//@     assert [C15] freshlocals: ncall == 0 && recv == r.RuleContent && arg0 == dc && fresh(arg1) && emptymap(arg1)
+//@     after ncall := ncall + 1
+//@     after CV := callresult.0
+//@     after CE := callresult.1
+//@     after CB := callresult.2
 //@   ensures [C11] failnoflag: result.1 != nil ==> !result.2
+//@   ensures [C11] value: ncall == 1 && result.1 == nil ==> CE == nil && result.2 == CB && result.0 == ite(CV == RV_zero(), nil, rv_iface(CV))
+//@   ensures [C11] error: ncall == 1 && CE != nil ==> result.1 != nil
 //@   modifies frame rulerun
 
 //@ func (*RuleEntity).Execute$1
@@ -27,6 +37,17 @@ package base
 
 //@ func (*RuleContent).Execute
 //@   props C11 C02 C15
+//@   ghost n int = 0
+//@   ghost cv rv = RV_zero()
+//@   ghost ce error = nil
+//@   ghost cf bool = false
+//@   oncall (*Statements).Evaluate
+//@     assert [C02] body: n == 0 && recv == t.Statements && arg0 == dc && arg1 == Vars
+//@     after n := n + 1
+//@     after cv := callresult.0
+//@     after ce := callresult.1
+//@     after cf := callresult.2
+//@   ensures [C11] passthrough: n == 1 && result.0 == cv && result.1 == ce && result.2 == cf
 //@   ensures [C11] failnoflag: result.1 != nil ==> !result.2
 //@   modifies frame evalframe
 
@@ -64,9 +85,14 @@ package base
 //@ func (*ReturnStatement).Evaluate
 //@   props C02 C11
 //@   ghost n int = 0
+//@   ghost EV rv = RV_zero()
+//@   ghost ee error = nil
 //@   oncall (*Expression).Evaluate
 //@     assert [C02] once: n == 0 && recv == rs.Expression
 //@     after n := n + 1
+//@     after EV := callresult.0
+//@     after ee := callresult.1
+//@   ensures [C11] value: rs.Expression != nil ==> n == 1 && result.1 == ee && (ee == nil ==> result.0 == EV && result.2)
 //@   ensures [C11] failnoflag: result.1 != nil ==> !result.2
 //@   ensures [C02] flag: result.1 == nil ==> result.2
 //@   ensures [C02] bare: rs.Expression == nil ==> result.0 == RV_zero() && result.1 == nil && n == 0
